@@ -124,6 +124,33 @@ R.contract(
     bounded_note="up to 3 example cases",
 )
 
+# ------------------------------------------------------------------------------------------------- extract_top_level: every documented example is collected
+V = Opq("ExampleValue")
+ParamDef = DictOf(optional={"example": V, "schema": DictOf(optional={"example": V, "examples": ListOf(V, [0, 1, 2])}), "examples": Opq("ExamplesMap")})
+ExParam = Obj("spec:ExampleParameter", name=Const("p"), location=Const("query"), example_field=Const("example"), examples_field=Const("examples"), definition=ParamDef)
+R.nominal_methods["spec:ExampleOperation"] = {"iter_parameters": lambda it, obj, a, k: [obj.fields["parameter"]]}
+R.contract(EX + "find_in_responses", args={"operation": Opq("Any")}, returns=Opq("ResponseExamples"), trusted=True, note="examples found in response definitions (heuristic source, not part of the claim)")
+R.contract(EX + "find_matching_in_responses", args={"examples": Opq("Any"), "param": Opq("Any")}, returns=Const(()), trusted=True, note="response-derived examples: none in this contract")
+R.contract(EX + "_find_parameter_examples_definition", args={"operation": Opq("Any"), "parameter_name": Opq("Any"), "field_name": Opq("Any")}, returns=Opq("Unresolved"), trusted=True, note="unresolved `examples` map")
+R.contract(EX + "extract_inner_examples", args={"examples": Opq("Any"), "unresolved_definition": Opq("Any")}, returns=ListOf(V, [0, 1, 2]), trusted=True,
+           effects={"inner": "list_of_values(result)"}, note="the `value` of every entry of an `examples` map (externalValue entries are skipped)")
+R.spec_funcs["list_of_values"] = lambda it, xs: list(it.iterate_all(xs))
+DOCUMENTED = ("([operation.parameter.definition['example']] if 'example' in operation.parameter.definition else []) + "
+              "([operation.parameter.definition['schema']['example']] if 'schema' in operation.parameter.definition and 'example' in operation.parameter.definition['schema'] else []) + "
+              "(list(operation.parameter.definition['schema']['examples']) if 'schema' in operation.parameter.definition and 'examples' in operation.parameter.definition['schema'] else []) + ghost('inner')")
+R.contract(
+    EX + "extract_top_level",
+    prop="C17",
+    args={"operation": Obj("spec:ExampleOperation", parameter=ExParam, body=Const(()))},
+    ghost={"inner": []},
+    ensures={
+        # each explicit example of the parameter (parameter-level `example`, schema-level `example`, schema `examples`, the `examples` map) is collected - verbatim, under the parameter's own name and location
+        "every_documented_example_is_collected": "all(any(e.value is v and e.name == 'p' and e.container == 'query' for e in result) for v in " + DOCUMENTED + ")",
+        "nothing_else_is_collected": "all(any(e.value is v for v in " + DOCUMENTED + ") and e.name == 'p' and e.container == 'query' for e in result)",
+    },
+    bounded_note="one parameter, up to 2 entries in each examples list",
+)
+
 LEVEL_TEXT = ("Deductive coverage postcondition on the real combination generators for example lists up to a stated size (labelled bounded), plus the round-robin "
               "arithmetic lemma for all sizes; extraction of examples from the document is not decided here.")
 LEVEL_NOTE = "Trusted: itertools cycle/islice (E5), fill-in generation (E1/E2), pyvc semantics (E9)."
